@@ -1,0 +1,18 @@
+//go:build verif
+
+// Contracts for the contract-based verification in /verif (comment-only file).
+
+package verifier
+
+//@ import seg "github.com/scionproto/scion/pkg/segment"
+
+//@ # builder methods: each returns a verifier bound as requested and otherwise like the receiver (C24)
+//@ iface Verifier.WithServer
+//@   modifies nothing
+//@   ensures result != nil && seg.vIA(result) == seg.vIA(self) && seg.vNB(result) == seg.vNB(self) && seg.vNA(result) == seg.vNA(self)
+//@ iface Verifier.WithIA
+//@   modifies nothing
+//@   ensures result != nil && seg.vIA(result) == uint64(arg0) && seg.vNB(result) == seg.vNB(self) && seg.vNA(result) == seg.vNA(self)
+//@ iface Verifier.WithValidity
+//@   modifies nothing
+//@   ensures result != nil && seg.vIA(result) == seg.vIA(self) && seg.vNB(result) == arg0.NotBefore.ext && seg.vNA(result) == arg0.NotAfter.ext
